@@ -162,6 +162,10 @@ def run_model(lines, timeout=600):
     if not lines:
         return []
     data = "".join(l + "\n" for l in lines)
+    for _ in range(60):   # the binary is briefly absent while somebody relinks it
+        if os.path.exists(XMODEL_BIN):
+            break
+        time.sleep(1)
     p = subprocess.run([XMODEL_BIN], input=data, stdout=subprocess.PIPE, stderr=subprocess.PIPE, text=True,
                        timeout=timeout, errors="replace")
     out = p.stdout.split("\n")
@@ -215,6 +219,11 @@ class Check:
         targets = [f"Props.{prop}", "Audit.Tools", "xmodel"] + list(extra_targets)
         self.checker_cmd = f"cd /verif/lean && lake build {' '.join(targets)} && lake env lean Audit/{prop}.lean"
         rc, out = lake_build(targets)
+        if rc != 0 and os.environ.get("VERIF_DEV") == "1" and os.path.exists(XMODEL_BIN):
+            # development aid while several people edit drivers at once: if only the shared driver binary
+            # fails to link, fall back to the last good binary (never in the registered commands)
+            rc, out = lake_build([t for t in targets if t != "xmodel"])
+            self.notes.append("VERIF_DEV: reused an older xmodel binary")
         if rc != 0:
             self.broken.append({"kind": "proof-build", "detail": out[-3000:]})
             # still try to build the model driver alone so that the search can run
